@@ -449,17 +449,11 @@ func (c *chain) step(rc *runCtx, i int) (stop bool) {
 			}
 			if rc.verbose {
 				for ti, t := range b.Transactions() {
-					fmt.Printf("   tx %d type %d etxtype %d to %v gas %d value %v data %x sender %v\n", ti, t.Type(), func() uint64 {
-						if t.Type() == types.ExternalTxType {
-							return t.EtxType()
-						}
-						return 99
-					}(), t.To(), t.Gas(), t.Value(), t.Data(), func() string {
-						if t.Type() == types.ExternalTxType {
-							return t.ETXSender().Hex()
-						}
-						return ""
-					}())
+					if t.Type() == types.ExternalTxType {
+						fmt.Printf("   tx %d etx type %d to %v gas %d value %v data %x sender %v\n", ti, t.EtxType(), t.To(), t.Gas(), t.Value(), t.Data(), t.ETXSender().Hex())
+					} else {
+						fmt.Printf("   tx %d type %d hash %x\n", ti, t.Type(), t.Hash())
+					}
 				}
 			}
 			rc.rep.Fail("own-block/rejected-by-Append/"+verdictNames[verdict]+"/"+cj.ExecErr, "a block assembled by the worker is rejected by the node's own SetCurrentHeader: "+err.Error(), cj)
